@@ -175,6 +175,21 @@ func (ds *dataStore) passOnWakeServed(ws *wakeSignal, keyNames []string) {
 	ds.passOnWake(keyNames)
 }
 
+// A woken client that left the element where it was - its move failed on the destination, or
+// moved the element within the same list - hands the one wake-up it was given to the next
+// waiter of that list.
+func (ds *dataStore) passOnOneWake(keyName string) {
+	ds.mu.Lock()
+	defer ds.mu.Unlock()
+	val, exists := ds.data.get(keyName)
+	if !exists {
+		return
+	}
+	if list := val.(*storeKey).getList(); list != nil && list.count > 0 {
+		ds.waitingClients.unblock(keyName, 1)
+	}
+}
+
 func (ds *dataStore) leaveListBlock(ws *wakeSignal) {
 	ds.mu.Lock()
 	defer ds.mu.Unlock()
